@@ -12,6 +12,7 @@ import Driver.C10
 import Driver.C07
 import Driver.C18
 import Driver.C14
+import Driver.C19
 
 def main (args : List String) : IO UInt32 := do
   match args with
@@ -29,4 +30,5 @@ def main (args : List String) : IO UInt32 := do
   | ["c07"] => Redproxy.Driver.C07.main; return 0
   | ["c18"] => Redproxy.Driver.C18.main; return 0
   | ["c14"] => Redproxy.Driver.C14.main; return 0
+  | ["c19"] => Redproxy.Driver.C19.main; return 0
   | _ => IO.eprintln "usage: rpmodel <mode>  (cases on stdin, one output line per case on stdout)"; return 2
